@@ -160,7 +160,10 @@ pub fn triple(nonutf8: bool) -> BoxedStrategy<Triple> {
 			let o = Opt::new(f).with_nonutf8(nonutf8 && nu);
 			let base: BoxedStrategy<String> = match kind {
 				Kind::Reference => gen::ref_parts_with(o, false, prop_oneof![1 => gen::segments(o), 1 => gen::dotty_segments(o)].boxed(), 6, 5).prop_map(|p| recompose(&p)).boxed(),
-				Kind::Full => gen::ref_parts_with(o, true, prop_oneof![1 => gen::segments(o), 1 => gen::dotty_segments(o)].boxed(), 10, 5).prop_map(|p| recompose(&p)).boxed(),
+				Kind::Full => prop_oneof![
+					8 => gen::ref_parts_with(o, true, prop_oneof![1 => gen::segments(o), 1 => gen::dotty_segments(o)].boxed(), 10, 5).prop_map(|p| recompose(&p)),
+					1 => select(vec!["data:,", "data:text/plain,hello", "data:a/b,x", "data:a/./b,x", "data:;base64,QQ==", "data:a/b;base64,QQ==", "data:text/html#f,x", "data:a/b,%41", "data:a/b,A", "data:a/c/../b,x"]).prop_map(|s| s.to_string()),
+				].boxed(),
 				k => component(o, k),
 			};
 			let related = (base.clone(), vec(gen::variant(), 0..=3), vec(gen::variant(), 0..=3)).prop_map(move |(a, v1, v2)| {
